@@ -94,6 +94,16 @@ def shuffle_primitives(rng, sh):
     return make_shell(sh.icenter, sh.angmoms, sh.kinds, sh.exponents[order], sh.coeffs[order])
 
 
+def relayout_shell(rng, sh):
+    """The same shell with its arrays in other memory layouts (Fortran-ordered coefficient matrix, strided exponents)."""
+    from iodata.basis import Shell
+
+    big = np.zeros(2 * sh.nexp)
+    big[::2] = sh.exponents
+    coeffs = np.asfortranarray(sh.coeffs) if rng.random() < 0.5 else sh.coeffs[::-1].copy()[::-1]
+    return Shell(sh.icenter, sh.angmoms, sh.kinds, big[::2], coeffs)
+
+
 def make_basis(shells, conventions):
     from iodata.basis import MolecularBasis
 
